@@ -14,6 +14,7 @@ class Context:
         self._globals = SymbolTable()
         self._locals = SymbolTable()
         self._loop_stack = deque()
+        self._outer_loops = None
         self._loop_depth = 0
         self._in_matrix = False
         self._in_routine = False
@@ -29,9 +30,14 @@ class Context:
         self._globals.clear()
         self._locals.clear()
         self._loop_stack.clear()
+        self._outer_loops = None
 
     def enter_routine(self) -> None:
         self._in_routine = True
+        # Loops that surround the definition are not loops of the routine's
+        # body: a "break" in the body needs a loop of its own.
+        self._outer_loops = self._loop_stack
+        self._loop_stack = deque()
 
     def in_routine(self) -> bool:
         return self._in_routine
@@ -39,6 +45,9 @@ class Context:
     def exit_routine(self) -> None:
         self._in_routine = False
         self._locals.clear()
+        if self._outer_loops is not None:
+            self._loop_stack = self._outer_loops
+            self._outer_loops = None
 
     def enter_matrix(self) -> None:
         self._in_matrix = True
